@@ -13,17 +13,17 @@ Close Scope Z_scope.
 Open Scope nat_scope.
 
 Theorem sat_eq_random2 (fb : flat) (b : backend) (ok : bool) (n' : Z) (final : cnf) :
-  in_f1 fb = true -> frag2 fb = true -> enumerates fb -> 0 < T fb -> fl_errors_fail fb = false ->
+  in_f1 fb = true -> frag2 fb = true -> 0 < T fb -> fl_errors_fail fb = false ->
   compile fb = COk b -> full_cnf b = (ok, n', final) ->
   forall q : tseq,
     (exists t, sat t final = true /\ onehot fb t q) <->
     (exists k cand, In k (keys_of fb) /\ decode_key fb k = Some cand /\ accepts fb cand = true /\
                     cand_seq fb cand = q).
 Proof.
-  intros HF1 HR2 Hex HT He Hc Ef q. split.
+  intros HF1 HR2 HT He Hc Ef q. split.
   - intros (t & St & Ho).
     destruct (models_are_valid fb HF1 HT b Hc ok n' final t Ef St) as (q' & Ho' & Hv).
-    rewrite (onehot_unique fb t q q' Ho Ho'). exact (f2_accept_complete fb HR2 q' Hex He Hv).
+    rewrite (onehot_unique fb t q q' Ho Ho'). exact (f2_accept_complete fb HR2 q' He Hv).
   - intros (k & cand & Hk & Hd & Ha & <-).
     pose proof (f2_accept_sound fb HR2 k cand Hk Hd Ha) as Hv.
     exact (valid_has_model fb HF1 HT b Hc ok n' final _ Ef Hv).
@@ -31,12 +31,11 @@ Qed.
 
 (** jointly satisfiable outside [frag1]: a weighted level, AtMostKInARow, a leftover round *)
 Lemma sat_eq_random2_example :
-  in_f1 ex3_flat = true /\ frag2 ex3_flat = true /\ frag1 ex3_flat = false /\ enumerates ex3_flat /\ 0 < T ex3_flat /\
+  in_f1 ex3_flat = true /\ frag2 ex3_flat = true /\ frag1 ex3_flat = false /\ 0 < T ex3_flat /\
   fl_errors_fail ex3_flat = false /\ (exists b, compile ex3_flat = COk b) /\
   length (keys_of ex3_flat) = 96 /\ length (accepted_keys ex3_flat) = 32.
 Proof.
   split; [vm_compute; reflexivity|]. split; [exact ex3_frag2|]. split; [exact ex3_frag1|].
-  split; [apply enumerates_b_spec; exact ex3_enum|].
   split; [vm_compute; lia|]. split; [reflexivity|]. split; [|split; [exact ex3_nkeys | exact ex3_nacc]].
   apply compile_total_f1; [vm_compute; reflexivity|vm_compute; lia].
 Qed.
